@@ -16,7 +16,7 @@ def weakList (r : Rec) : List Bool :=
   (List.range 8).map fun (i : Nat) => w.contains (Int.ofNat i)
 
 def cstats (r : Rec) : CStats Float :=
-  { atk := r.flt "atk", defn := r.flt "def", maxHP := r.flt "maxhp", level := r.int "level",
+  { atk := statCalc (r.flt "atk") (r.flt "atkpct") (r.flt "atkflat"), defn := statCalc (r.flt "def") (r.flt "defpct") (r.flt "defflat"), maxHP := r.flt "maxhp", level := r.int "level",
     allDmgPct := r.flt "alldmg", dmgPct := r.flts "dmgpct", dotPct := r.flt "dot", breakEffect := r.flt "be",
     allRes := r.flt "allres", res := r.flts "res", allPen := r.flt "allpen", pen := r.flts "pen",
     allTaken := r.flt "alltaken", taken := r.flts "taken", reduce := r.flt "reduce", fatigue := r.flt "fatigue",
